@@ -104,6 +104,17 @@ theorem generated_hasCyclic_spec (ids pids : List Int) (hv : ValidTable ids pids
 example : has_cyclic 9 ([0, 1, 2, 3], [-1, 0, 3, 2]) = some true ∧ has_cyclic 9 ([0, 1, 2, 3], [-1, 0, 1, 1]) = some false := by
   decide +kernel
 
+/-! ## `is_bifurcate`, as translated -/
+
+/-- the translated `is_bifurcate` equals the model on every table with equally long columns -/
+theorem generated_isBifurcate_eq_model (ids pids : List Int) (hl : ids.length = pids.length) (excl : Bool) :
+    is_bifurcate (ids, pids) excl = some (isBifurcate ids pids excl) :=
+  RefineCheckers.isBifurcate_refines ids pids hl excl
+
+example : is_bifurcate ([0, 1, 2, 3, 4], [-1, 0, 0, 0, 1]) true = some true ∧
+          is_bifurcate ([0, 1, 2, 3, 4], [-1, 0, 0, 0, 1]) false = some false ∧
+          is_bifurcate ([0, 1, 2, 3, 4, 5], [-1, 0, 1, 1, 1, 0]) true = some false := by decide +kernel
+
 /-- non-vacuity: the translated `get_dsu` on a table with a cycle and a separate tree (kernel-evaluated) -/
 example : get_dsu 40 [0, 1, 2, 3, 4, 5] [1, 2, 0, -1, 3, 3] = some [0, 0, 0, 3, 3, 3] ∨
           get_dsu 40 [0, 1, 2, 3, 4, 5] [1, 2, 0, -1, 3, 3] = some [1, 1, 1, 3, 3, 3] ∨
